@@ -8,12 +8,15 @@ from .. import sexp, gen_md, gen_desc, md_common
 PID = "C19"
 TECHNIQUE = "Lean 4 theorems on line padding (offset -> line/column under newline padding) + correspondence of padded sources + injected-fault oracle on documents"
 LEVEL_TEXT = ("Theorems in Lean: prepending k newlines to a block's text moves every reported line down by exactly k and leaves column and quoted line "
-              "unchanged (pad_line, pad_extract), for every text and offset; the padded source the front end builds (lines before the block, +1 for a "
+              "unchanged (pad_line, pad_extract), for every text and offset; the whole parser and compiler are position independent (parse_pad: padding a block "
+              "with k newlines shifts every source offset of the AST by k and changes nothing else, proved rule by rule through the grammar; "
+              "padded_error_line / markdown_error_line: a redefinition or proportion error of a padded block is the same error, k lines further down, at the "
+              "same column, quoting the same text, where k = paddedSource's count of document lines before the block); the padded source the front end builds (lines before the block, +1 for a "
               "fence) is compared exactly with the model on the code blocks marko reports; that the reported line is the document line of the offending "
               "token is checked by injecting one fault at every statement position of generated documents.")
 LEVEL_NOTE = ("Partial: rests on the per-document hypothesis H_marko (the captured source is the block's lines with one prefix removed per line; pos is the "
               "offset of the first code line resp. the fence line), which is marko's behaviour and is observed, not proved. Trusted: Lean kernel.")
-LEAN_MODULES = ["RecipeGrid.Props.C19"]
+LEAN_MODULES = ["RecipeGrid.Props.C19", "RecipeGrid.Props.C19b"]
 SOURCES = ["recipe_grid/markdown.py", "recipe_grid/compiler.py"]
 RULE = ("documents of C13 (top level / list item / block quote x indented / fenced with either fence character, several blocks and independent recipes) with "
         "one injected fault (redefinition, proportion of an unknown name, stray token) at a random statement of a random block; LF and CRLF line endings; "
